@@ -9,15 +9,15 @@ EXTENDS FluxConv, TLC
 CONSTANTS MaxLen, Levels, NegLevels      \* input levels (milli-mag): Levels and the negatives of NegLevels
 VARIABLES c, exp
 
-WaveCase(fn, k, pat) == [type |-> "wave", fn |-> fn, kind |-> k, pat |-> pat]
-ABCase(form, b, m0) == [type |-> "ab", form |-> form, band |-> b, m0 |-> m0]
+WaveCase(fn, k, pat, l) == [type |-> "wave", fn |-> fn, kind |-> k, pat |-> pat, layout |-> l]
+ABCase(form, b, m0, l) == [type |-> "ab", form |-> form, band |-> b, m0 |-> m0, layout |-> l]
 
 Init ==
-  \/ /\ \/ \E fn \in Fns : \E k \in ScalarKinds : \E cl \in Classes : c = WaveCase(fn, k, <<cl>>)
+  \/ /\ \/ \E fn \in Fns : \E k \in ScalarKinds : \E cl \in Classes : c = WaveCase(fn, k, <<cl>>, "plain")
         \/ \E fn \in Fns : \E k \in ArrayKinds : \E n \in 1..MaxLen : \E pat \in [1..n -> Classes] :
-              c = WaveCase(fn, k, pat)
+              \E l \in LayoutsOf(k) : c = WaveCase(fn, k, pat, l)
      /\ exp = Expected(c)
-  \/ /\ \E form \in Forms : \E b \in DOMAIN Bands : \E m0 \in (Levels \cup {0 - l : l \in NegLevels}) : c = ABCase(form, b, m0)
+  \/ /\ \E form \in Forms : \E b \in DOMAIN Bands : \E m0 \in (Levels \cup {0 - l : l \in NegLevels}) : \E l \in ABLayouts : c = ABCase(form, b, m0, l)
      /\ exp = ExpectedAB(c)
 Next == UNCHANGED <<c, exp>>
 
@@ -35,6 +35,7 @@ C19_OppositeDirections == IsWave => OppositeDirections(c)
 C19_ArrayIsMapOfScalar == IsWave => ArrayIsMapOfScalar(c)
 C19_UnitIndependent == IsWave => UnitIndependent(c)
 C19_TotalOnDomain == IsWave => TotalOnDomain(c)
+C19_LayoutIndependent == (IsWave => LayoutIndependent(c)) /\ (IsAB => ABLayoutIndependent(c))
 C19_ElementTypeIndependent == IsWave => ElementTypeIndependent(c)
 C19_AnswerInCallersForm == IsWave => /\ exp.form.quantity = (c.kind \in QuantityKinds)
                                      /\ exp.form.scalar = (c.kind \in ScalarKinds)
